@@ -311,14 +311,14 @@ KIND_TO_TK = {"Plus": "plus", "Slash": "slash", "AmpersandAmpersand": "andand", 
               "EqualsTilde": "eqtilde", "BangTilde": "bangtilde"}
 
 
-def to_tks(text, toks):
+def to_tks(text, toks, keep_eol=False):
     """lexer tokens of an expression text -> model tokens (white space dropped)"""
     b = text.encode("utf-8")
     out = []
     for t in toks:
         k = t["kind"]
         lex = b[t["offset"]:t["offset"] + t["length"]].decode("utf-8")
-        if k in ("Whitespace", "Eol", "Eof"):
+        if k in ("Whitespace", "Eof") or (k == "Eol" and not keep_eol):
             continue
         if k == "Identifier":
             out.append({"k": "ident", "s": lex})
@@ -418,6 +418,86 @@ def model_stream(report, jv, dr, tier):
             mism += 1
             report.failure("c10-model-roundtrip", "the model's own round trip failed on a parsed expression", replay, no_input=True)
     return {"model_expressions": len(exprs), "model_compiling": len(ok), "model_mismatches": mism}
+
+
+
+def gen_header(rng, idx):
+    """a recipe header line over plain leaves; returns (text of the whole justfile, header line)"""
+    leaf = lambda d: gen_model_expr(rng, d)
+    name = "r%d" % idx
+    params = []
+    state = 0
+    for i in range(rng.choice([0, 0, 1, 2, 3])):
+        exp = "$" if rng.random() < 0.25 else ""
+        if state == 0 and rng.random() < 0.5:
+            params.append("%sp%d" % (exp, i))
+        else:
+            state = 1
+            # a default is a VALUE: literal, variable, backtick, call or parenthesised expression
+            d = rng.choice(["'s1'", "v0", "`b1`", "arch()", "(%s)" % leaf(2), "trim(%s)" % leaf(1)])
+            params.append("%sp%d=%s" % (exp, i, d))
+    variadic = ""
+    if rng.random() < 0.35:
+        d = "=%s" % rng.choice(["'s2'", "v1", "(%s)" % leaf(1)]) if (state == 1 or rng.random() < 0.4) else ""
+        variadic = "%s%sq%s" % (rng.choice(["+", "*"]), "$" if rng.random() < 0.2 else "", d)
+
+    def dep():
+        n = rng.choice([0, 0, 1, 2, 3])
+        if n == 0 and rng.random() < 0.7:
+            return "t0"
+        args = []
+        for k in range(n):
+            a = leaf(rng.randint(0, 2))
+            # an argument that starts with `(` or `/` would continue the previous one when that is a name or a value
+            if k > 0 and (a.startswith("(") or a.startswith("/")):
+                a = "'s3'"
+            args.append(a)
+        return "(t%d%s)" % (n, "".join(" " + a for a in args))
+    priors = [dep() for _ in range(rng.choice([0, 0, 1, 2]))]
+    subs = [dep() for _ in range(rng.choice([0, 0, 0, 1, 2]))]
+    line = "%s%s%s%s:%s%s" % ("@" if rng.random() < 0.2 else "", name, "".join(" " + p for p in params), (" " + variadic) if variadic else "",
+                               "".join(" " + d for d in priors), (" &&" + "".join(" " + d for d in subs)) if subs else "")
+    return line
+
+
+def header_stream(report, jv, dr, tier):
+    rng = random.Random(report.seed ^ 0x4ead)
+    n = 2500 if tier == "quick" else 40000
+    decls = ("v := 'q'\nv0 := 'a'\nv1 := 'b'\nv2 := 'c'\nelse := 'e'\nx := 'x'\nassert_ := 'z'\niff := 'i'\nset unstable\n"
+             "t0:\nt1 a:\nt2 a b:\nt3 a b c:\n")
+    lines = [gen_header(rng, i) for i in range(n)]
+    comp = jv.pbatch([{"op": "compile", "src": decls + l + "\n"} for l in lines], chunk=500)
+    lexed = jv.pbatch([{"op": "lex", "src": l + "\n"} for l in lines])
+    ok = [(i, l, c, lx) for i, (l, c, lx) in enumerate(zip(lines, comp, lexed)) if "dump" in c and "tokens" in lx]
+    model = dr.pbatch([{"op": "header", "tokens": to_tks(l + "\n", lx["tokens"], keep_eol=True)} for i, l, c, lx in ok])
+    printed_lines = []
+    for i, l, c, lx in ok:
+        f = c["formatted"]
+        name = "r%d" % i
+        start = max(f.find("\n" + name + " "), f.find("\n" + name + ":"), f.find("\n@" + name))
+        start += 1
+        printed_lines.append(f[start:f.index("\n", start)] + "\n")
+    relex = jv.pbatch([{"op": "lex", "src": t} for t in printed_lines])
+    mism = 0
+    for (i, l, c, lx), m, pl, rl in zip(ok, model, printed_lines, relex):
+        replay = {"op": "header-model", "line": l}
+        rec = c["dump"]["recipes"]["r%d" % i]
+        want = {"name": rec["name"], "quiet": rec["quiet"], "parameters": rec["parameters"],
+                "dependencies": [{"recipe": d["recipe"], "arguments": d["arguments"]} for d in rec["dependencies"]], "priors": rec["priors"]}
+        got = {k: m.get(k) for k in want}
+        if got != want or m.get("rest") != 0:
+            mism += 1
+            report.failure("c10-model-header-parser", "Lean header parser and parse_recipe disagree", dict(replay, correspondence="recipe header parser (vlib/c10.py)", model=got, impl=want), no_input=True)
+            continue
+        if "tokens" not in rl or m.get("printed") != to_tks(pl, rl["tokens"], keep_eol=True):
+            mism += 1
+            report.failure("c10-model-header-printer", "Lean header printer and ColorDisplay for Recipe disagree on the printed tokens",
+                           dict(replay, correspondence="recipe header printer (vlib/c10.py)", model=m.get("printed"), impl=pl), no_input=True)
+            continue
+        if not m.get("reparse_same"):
+            mism += 1
+            report.failure("c10-model-header-roundtrip", "the model's own header round trip failed", replay, no_input=True)
+    return {"header_lines": len(lines), "header_compiling": len(ok), "header_mismatches": mism}
 
 
 def dump_of(r):
@@ -608,6 +688,7 @@ def run(report):
                            dict(replay, after=o["after_fmt"]))
     stats["file_cases"] = kinds
     stats.update(model_stream(report, jv, C.Driver(), tier))
+    stats.update(header_stream(report, jv, C.Driver(), tier))
     report.coverage.update({"inputs": len(srcs) + len(fcases)})
     report.coverage.update(stats)
     report.assumptions += [
